@@ -9,7 +9,7 @@ CONSTANTS
   MaxTs = 2
   MaxDeletes = 2
   MaxReopens = 0
-  MaxPosOps = 4
+  MaxPosOps = 3
   Active = {"r2"}
   Bin = FALSE
   Acts = {"write", "read", "readblock", "delete", "seek", "tell", "refresh"}
